@@ -1544,6 +1544,44 @@ int32 matrixSslDeleteSessionTicketKey(sslKeys_t *keys, unsigned char name[16])
 
 /******************************************************************************/
 /*
+    Accessors for code outside this file (TLS 1.3 tickets, hello extension
+    parsing): the key list may only be touched under g_sessTicketLock.
+    matrixSslCopySessionTicketKey copies out the key called 'name', or the
+    first (= issuing) key if name is NULL.
+ */
+int32 matrixSslHaveSessionTicketKeys(const sslKeys_t *keys)
+{
+    int32 have;
+
+    psLockMutex(&g_sessTicketLock);
+    have = (keys != NULL && keys->sessTickets != NULL);
+    psUnlockMutex(&g_sessTicketLock);
+    return have;
+}
+
+int32 matrixSslCopySessionTicketKey(const sslKeys_t *keys,
+    const unsigned char *name, psSessionTicketKeys_t *out)
+{
+    psSessionTicketKeys_t *k;
+    int32 rc = PS_FAILURE;
+
+    psLockMutex(&g_sessTicketLock);
+    for (k = keys->sessTickets; k != NULL; k = k->next)
+    {
+        if (name == NULL || Memcmp(k->name, name, 16) == 0)
+        {
+            *out = *k;
+            out->next = NULL;
+            rc = PS_SUCCESS;
+            break;
+        }
+    }
+    psUnlockMutex(&g_sessTicketLock);
+    return rc;
+}
+
+/******************************************************************************/
+/*
     This will be called on ticket decryption if the named key is not
     in the current local list
  */
